@@ -38,6 +38,7 @@ Qed.
 Section SoundBounds.
   Variable X : value -> value -> bool.
   Variable E : cexpr -> row -> bool.
+  Variable B : cexpr -> bool.
   Variable PA : parg -> bool.
   Variable sch : list Z.
   Variable ids : list (Z * Z).
@@ -65,11 +66,12 @@ Section SoundBounds.
     map to_fexpr ps = map Some es ->
     valid_cols sch cols ->
     bounds_sound es files ->
+    refused B ce = false ->
     (forall e f r, ce = Some e -> In f files -> In r (frows f) -> eval3 X E e r <> None) ->
-    scan_table X E PA sch ids bounds v cols flt files
+    scan_table X E B PA sch ids bounds v cols flt files
     = Ok (sel cols (filter (row_selected X es) (concat (map frows files)))).
   Proof.
-    intros P Sh V BS NR. unfold scan_table. rewrite P. simpl.
+    intros P Sh V BS NB NR. unfold scan_table. rewrite P. simpl.
     rewrite (concat_tables_fun sch cols V).
     destruct files as [|f0 fs0]; [destruct cols; reflexivity|].
     remember (f0 :: fs0) as files. clear Heqfiles f0 fs0.
@@ -81,11 +83,11 @@ Section SoundBounds.
     { unfold files', prune_p. destruct ps; auto. destruct files; auto. intros f1 I. apply filter_In in I. tauto. }
     rewrite (mapM_ok _ (fun f => sel cols (filter (row_selected X es) (frows f)))).
     - reflexivity.
-    - intros f I. rewrite read_one_rfp by auto. unfold rfp.
+    - intros f I. rewrite read_one_rfp by auto. rewrite (rfp_bound X E B cols ce (frows f) NB). unfold rfp0.
       unfold prepare in P. destruct (parse flt) as [ps0|] eqn:Pa; simpl in P; [|discriminate].
-      destruct (build PA ps0) as [ce0|] eqn:B; simpl in P; [|discriminate]. inversion P; subst ps0 ce0; clear P.
-      unfold build in B. destruct (mapM (condition PA) ps) as [cs|] eqn:M; simpl in B; [|discriminate].
-      injection B as G.
+      destruct (build PA ps0) as [ce0|] eqn:Bd; simpl in P; [|discriminate]. inversion P; subst ps0 ce0; clear P.
+      unfold build in Bd. destruct (mapM (condition PA) ps) as [cs|] eqn:M; simpl in Bd; [|discriminate].
+      injection Bd as G.
       destruct ce as [e|]; simpl.
       + rewrite filter_rows_ok by (intros r Hr; apply (NR e f r eq_refl (Sub f I) Hr)). simpl.
         do 2 f_equal. apply filter_ext_in. intros r Hr.
@@ -105,15 +107,16 @@ Section SoundBounds.
     map to_fexpr ps = map Some es ->
     valid_cols sch cols -> (forall l, concat (split l) = l) ->
     bounds_sound es files ->
+    refused B ce = false ->
     (forall e f r, ce = Some e -> In f files -> In r (frows f) -> eval3 X E e r <> None) ->
     let answer := Ok (sel cols (filter (row_selected X es) (concat (map frows files)))) in
-    scan_table X E PA sch ids bounds v cols flt files = answer
-    /\ flat (scan_batches X E PA sch ids bounds split cols flt files) = answer
-    /\ iter_records X E PA sch ids bounds cols flt files = answer.
+    scan_table X E B PA sch ids bounds v cols flt files = answer
+    /\ flat (scan_batches X E B PA sch ids bounds split cols flt files) = answer
+    /\ iter_records X E B PA sch ids bounds cols flt files = answer.
   Proof.
-    intros P Sh V S BS NR. cbv zeta.
-    pose proof (scan_spec_gen true cols flt files ps ce es P Sh V BS NR) as R.
-    destruct (api_agree X E PA sch ids bounds split v cols flt files V S) as [A1 [A2 A3]].
+    intros P Sh V S BS NB NR. cbv zeta.
+    pose proof (scan_spec_gen true cols flt files ps ce es P Sh V BS NB NR) as R.
+    destruct (api_agree X E B PA sch ids bounds split v cols flt files V S) as [A1 [A2 A3]].
     cbv zeta in *. rewrite A1, A2, A3. auto.
   Qed.
 End SoundBounds.
